@@ -22,7 +22,8 @@ EXPLANATION = (
     "touches its own writer (never blob.close()/delete()); the incremental JSON probe catches every exception "
     "json.loads raises on binary data. Integrity of accepted bytes is C01."
 )
-TECHNIQUE = "static analysis: CFG guard dominance, must-precede ordering, exception-escape vs handler hierarchy, who-may-call, parameter effect summary"
+EXACTNESS = "Second pass (DESIGN.md §10, exactness / completeness halves) — both framing state machines and the header probe: every effect (buffer, parse, adopt length, fire future, forward bytes, handle request, answer each request part, send responses) under exactly the handler's own tests; cursor arithmetic of the probe; buffers start empty; idle-watchdog bracket (a transfer is announced before the first byte and marked finished on every way out); announced-length bound and writer acceptance shared from C01 (C10-D7)."
+TECHNIQUE = "static analysis: CFG guard dominance, must-precede ordering, exception-escape vs handler hierarchy, who-may-call, parameter effect summary; exact fact-set comparison of the tests dominating each effect and refusal (effect / refusal tables), fall-through path queries"
 NOT_DECIDED = ("invariance of the incremental parser under every fragmentation of the byte stream, 'keeps serving others', and "
                "byte-identical completion for concrete runs (behaviour over runtime data)")
 ASSUMPTIONS = ["an exception escaping a TCP protocol callback makes asyncio close that transport (selector_events._fatal_error)"]
